@@ -450,8 +450,14 @@ fn case_d(w: &[&str], ctx: &Arc<Ctx>) -> Verdict {
         Err(_) => return Verdict::Bad,
     };
     let _tickers = if manual { Some(Tickers::start(&server, exec.parse().unwrap_or(1))) } else { None };
-    if register_all(&server, ctx).is_err() || !wait_ready(&client) {
+    if register_all(&server, ctx).is_err() {
         return Verdict::Bad;
+    }
+    if !wait_ready(&client) {
+        // the object server never answered a Ping (10 s of retries): nothing is dispatched at all
+        std::mem::forget(server);
+        std::mem::forget(client);
+        return Verdict::Hang;
     }
     let v = client_burst(&client, ctx, &toks, false, None);
     if let Verdict::Hang = v {
@@ -499,7 +505,9 @@ fn case_l(w: &[&str], ctx: &Arc<Ctx>) -> Verdict {
         if variant == "a" {
             // the peer waits until the dispatch task demonstrably runs (a Ping has been answered)
             if !wait_ready(&client) {
-                return Verdict::Bad;
+                std::mem::forget(server);
+                std::mem::forget(client);
+                return Verdict::Hang;
             }
         }
         v = client_burst(&client, ctx, &toks, true, Some(&required));
@@ -530,7 +538,9 @@ fn case_l(w: &[&str], ctx: &Arc<Ctx>) -> Verdict {
         if variant == "d" {
             early = Some(Tickers::start(&server, 1));
             if !wait_ready(&client) {
-                return Verdict::Bad;
+                std::mem::forget(server);
+                std::mem::forget(client);
+                return Verdict::Hang;
             }
         }
         // the peer sends after AT; the server's executor is ticked only later (variant c)
